@@ -77,6 +77,7 @@ FIELD = {0: "model-graph-ill-formed", 1: "construction", 2: "construction", 3: "
 
 # node kinds: ("var",) ("atom", name) ("fun", name, [succ...]) ("str", text)
 SIG = [("f", 1), ("g", 2), (".", 2)]
+SIG_WIDE = SIG + [("h", 3), ("h", 3), ("k", 4)]      # random graphs only: structures with untouched arguments between the ones on a cycle
 
 
 def all_graphs(n):
@@ -96,7 +97,7 @@ def random_graph(rng, n, strings):
         elif r < 0.3: nodes.append(("atom", rng.choice(["a", "b", "[]"])))
         elif strings and r < 0.42: nodes.append(("str", rng.choice(["ab", "a", "abc"])))
         else:
-            f, k = rng.choice(SIG)
+            f, k = rng.choice(SIG_WIDE)
             nodes.append(("fun", f, [rng.randrange(n) for _ in range(k)]))
     return nodes
 
@@ -182,6 +183,15 @@ def gen_cases(ctx):
         n = rng.choice([3, 4, 4, 5, 5, 6, 6])
         nodes = random_graph(rng, n, rng.random() < 0.5)
         add(nodes, rng.randrange(n), rng.randrange(n), "random")
+    # fixed cases: a cycle that re-enters a structure of arity >= 3 through one of its own argument cells, reached first through
+    # another path, with untouched arguments between (every position of the cyclic argument, both root orders)
+    for ar in (3, 4):
+        for pos in range(ar):
+            for root_first in (True, False):
+                # 0: p(S,K) or p(K,S)   1: S = h/k(.., K at pos, ..)   2: K = f(S)   3: atom
+                args = [3] * ar; args[pos] = 2
+                nodes = [("fun", "g", [1, 2] if root_first else [2, 1]), ("fun", "h" if ar == 3 else "k", args), ("fun", "f", [1]), ("atom", "a")]
+                add(nodes, 0, 1, "fixed"); add(nodes, 0, 2, "fixed")
     # fixed cases with strings below structures (always present)
     add([("fun", "g", [1, 0]), ("str", "ab")], 0, 0, "fixed")
     add([("fun", "f", [1]), ("str", "abc")], 0, 1, "fixed")
